@@ -119,6 +119,9 @@ type Kernel struct {
 
 // Ledger records what happened, for harness oracles.
 type Ledger struct {
+	Files         int // temporary files that exist
+	Mappings      int // anonymous mappings that exist
+	Remaps        int // MAP_FIXED|MAP_SHARED file mappings placed inside a reservation
 	Opened        int // descriptors created
 	Closed        int // successful closes
 	BadClose      int // close of a number that is not open
